@@ -259,7 +259,7 @@ func checkC14In(c c14InCase) verdict {
 }
 
 var c14In = newPart("C14", "admission",
-	"enumeration over 576 usable representative suites (32 field subsets x 6 challenge formats x 3 password hashes; digits/hash rotate): every field alone at EVERY length 0..140, nil, and 24 lengths far above the limits that alias admissible lengths modulo 2^8 / 2^16 (264, 276, 288, 320, 384, 65544, ...), others valid, observed at OCRAInput.Validate + GenerateOCRA + ValidateOCRA (error kind), field contents rotating over 20 kinds (byte patterns, ASCII digits / letters / hex / base32, blanks, NUL, valid UTF-8 of 2-/3-/4-byte characters, invalid UTF-8, a zero sign byte before a high-bit value, DER-looking prefixes, zero-wrapped values), one representative suite in eight with a suite-string text of 41..600 bytes (admission must not depend on the length of the assembled message); every pair of fields at lengths from the boundary set {0,1,7..11,19..21,31..33,63..65,127..129,140}^2 (quick) or the full 0..140 x 0..140 square (thorough) at OCRAInput.Validate, boundary pairs also through GenerateOCRA/ValidateOCRA; oracle: independent predicate written from the statement; every (suite, lengths) tuple is distinct",
+	"enumeration over 576 usable representative suites (32 field subsets x 6 challenge formats x 3 password hashes; digits/hash rotate): every field alone at EVERY length 0..140, nil, and 24 lengths far above the limits that alias admissible lengths modulo 2^8 / 2^16 (264, 276, 288, 320, 384, 65544, ...), others valid, observed at OCRAInput.Validate + GenerateOCRA + ValidateOCRA (error kind), field contents rotating over 20 kinds (byte patterns, ASCII digits / letters / hex / base32, blanks, NUL, valid UTF-8 of 2-/3-/4-byte characters, invalid UTF-8, a zero sign byte before a high-bit value, DER-looking prefixes, zero-wrapped values), one representative suite in eight with a suite-string text of 41..600 bytes and one in eight with none at all (admission must not depend on the length of the assembled message); every pair of fields at lengths from the boundary set {0,1,7..11,19..21,31..33,63..65,127..129,140}^2 (quick) or the full 0..140 x 0..140 square (thorough) at OCRAInput.Validate, boundary pairs also through GenerateOCRA/ValidateOCRA; oracle: independent predicate written from the statement; every (suite, lengths) tuple is distinct",
 	checkC14In)
 
 func repSuites() []ref.OCRACfg {
@@ -270,6 +270,9 @@ func repSuites() []ref.OCRACfg {
 			for ph := 1; ph <= 3; ph++ {
 				i++
 				raw := fmt.Sprintf("rep-%d", i)
+				if i%8 == 3 {
+					raw = "" // a hand-built suite without a name (what the REST service builds from a structured suite)
+				}
 				if i%8 == 0 {
 					raw = strings.Repeat("OCRA-1:HOTP-SHA512-8:C-QN10-PSHA512-S064-T1M/", 14)[:[]int{41, 42, 64, 100, 200, 378, 600}[(i/8)%7]]
 				}
